@@ -31,6 +31,11 @@ CHECKS.update({
  "C17": ("exploration", "Every history of additions/deletions up to length 6 (7 thorough) over a 5-symbol alphabet on each of the 11 public collections, plus long random histories, replayed step by step against a sequential reference model (results, get on every id ever issued, iteration order, lookups).", "small value domains; double deletes skipped on both sides", "runtime monitoring: step-by-step conformance of recorded histories to a sequential model (small bound exhaustive)", "6 C17"),
 })
 
+CHECKS.update({
+ "C15": ("exploration", "Random well-typed trees built through the builder API in five construction orders; every emitted body compared operator by operator with the judge's own flattening of the same abstract tree (branch depths by the judge's own scoping, local slots through a typed bijection).", "tree generator shared by driver and judge; flattening independent of walrus", "runtime monitoring: emitted operator stream checked against an independent flattening of the built tree", "6 C15"),
+ "C18": ("exploration", "Each imported / exported function of generated modules is replaced through the edit API with a traced marker body; validity, import list, exports and execution are checked against an expected-behaviour model executed on the input in the reference interpreter.", "interpreter fidelity as for C01; expected model = input with the import bound to an equivalent host function / the first export answered by the model", "runtime monitoring: differential execution against an expected-behaviour model", "6 C18"),
+})
+
 NOT_YET = {}
 
 def main():
